@@ -82,6 +82,15 @@ type framingSpec struct {
 	Records [][]byte // alphabet of legal records for round trips
 }
 
+func framingByName(n string) framingSpec {
+	for _, f := range framings() {
+		if f.Name == n {
+			return f
+		}
+	}
+	panic("no framing " + n)
+}
+
 func framings() []framingSpec {
 	hdrRecs := [][]byte{[]byte(""), []byte("a"), []byte("x\r\n\r\ny"), []byte("Content-Length: 9\r\n\r\n"), []byte(`{"k":[1,2]}`), []byte("\n")}
 	return []framingSpec{
@@ -91,6 +100,8 @@ func framings() []framingSpec {
 		{Name: `Header("a/b")`, F: channel.Header("a/b"), Kind: "header", MType: "a/b", Records: hdrRecs},
 		{Name: `StrictHeader("a/b")`, F: channel.StrictHeader("a/b"), Kind: "header", MType: "a/b", Strict: true, Records: hdrRecs},
 		{Name: "LSP", F: channel.LSP, Kind: "header", MType: "application/vscode-jsonrpc; charset=utf-8", Records: hdrRecs},
+		// a split byte above 0x7f: records may contain the UTF-8 encoding of the rune of the same number (c3 bf), not the byte itself
+		{Name: "Split(0xff)", F: channel.Split(0xff), Kind: "split", Split: 0xff, Records: [][]byte{[]byte(""), []byte("a"), {'c', 'a', 'f', 0xc3, 0xbf}, {0xfe, 0x00, 0xc3}, []byte("é\n"), {0xbf}}},
 		{Name: "RawJSON", F: channel.RawJSON, Kind: "rawjson", Records: [][]byte{[]byte(`{}`), []byte(`[1, 2]`), []byte(`"a b"`), []byte("{\"k\":\n[1,\n{\"x\":\"}\"}]}"), []byte(`[]`), []byte(`"\"["`)}},
 	}
 }
@@ -328,9 +339,9 @@ func c11Sizes(fs framingSpec, sizes []int, maxLen int) *Scenario {
 func c11SplitGuard() *Scenario {
 	return &Scenario{
 		Name:   "split-byte guard: every record of length<=4 over {a, split}",
-		Params: map[string]any{"framings": []string{"Line", "Split(0x1e)"}},
+		Params: map[string]any{"framings": []string{"Line", "Split(0x1e)", "Split(0xff)", "Split(0x80)"}},
 		Seq: func(r *SeqRun) {
-			for _, fs := range framings()[:2] {
+			for _, fs := range []framingSpec{framingByName("Line"), framingByName("Split(0x1e)"), framingByName("Split(0xff)"), {Name: "Split(0x80)", F: channel.Split(0x80), Kind: "split", Split: 0x80}} {
 				var rec func(cur []byte)
 				rec = func(cur []byte) {
 					w := &bufWC{}
@@ -348,6 +359,10 @@ func c11SplitGuard() *Scenario {
 					if len(cur) < 4 {
 						rec(append(append([]byte(nil), cur...), 'a'))
 						rec(append(append([]byte(nil), cur...), fs.Split))
+						if fs.Split >= 0x80 { // the two bytes of the UTF-8 encoding of rune(split) are legal payload
+							rec(append(append([]byte(nil), cur...), 0xc0|fs.Split>>6))
+							rec(append(append([]byte(nil), cur...), 0x80|fs.Split&0x3f))
+						}
 					}
 				}
 				rec(nil)
@@ -421,7 +436,7 @@ func c11Scenarios(tier string) []*Scenario {
 	}
 	small := []int{0, 1, 4095, 4096, 4097, 65536}
 	big := []int{0, 1, 4097, 1 << 20, 1<<20 + 1, 3 << 20}
-	for _, fs := range []framingSpec{framings()[0], framings()[2], framings()[4], framings()[5], framings()[6]} {
+	for _, fs := range []framingSpec{framingByName("Line"), framingByName(`Header("")`), framingByName(`StrictHeader("a/b")`), framingByName("LSP"), framingByName("RawJSON")} {
 		if q {
 			out = append(out, c11Sizes(fs, small, 2))
 			if fs.Kind == "header" {
@@ -864,7 +879,7 @@ func c12HeaderValid(fs framingSpec) *Scenario {
 }
 
 func c12RawJSON(maxLen int) *Scenario {
-	fs := framings()[6]
+	fs := framingByName("RawJSON")
 	return &Scenario{
 		Name:   fmt.Sprintf("streams RawJSON: every string of length<=%d over {}[]\",:1n SP", maxLen),
 		Params: map[string]any{"framing": "RawJSON", "max_length": maxLen},
@@ -906,9 +921,9 @@ func c12Scenarios(tier string) []*Scenario {
 	q := tier == "quick"
 	fss := framings()
 	if q {
-		out = append(out, c12Split(fss[0], 7), c12Split(fss[1], 7))
+		out = append(out, c12Split(fss[0], 7), c12Split(fss[1], 7), c12Split(framingByName("Split(0xff)"), 6))
 	} else {
-		out = append(out, c12Split(fss[0], 9), c12Split(fss[1], 9))
+		out = append(out, c12Split(fss[0], 9), c12Split(fss[1], 9), c12Split(framingByName("Split(0xff)"), 8))
 	}
 	for _, fs := range fss[2:6] {
 		out = append(out, c12HeaderValid(fs))
